@@ -38,6 +38,25 @@ fn im_tri(t: &Value) -> Value {
            "sup": t.get("supi").cloned().unwrap_or_else(|| zeros_like(&t["sup"]))})
 }
 
+/// construct the operand of a case (a panic is data) and log what was built next to what was asked for
+fn construct<T: BE>(case: &Value, out: &mut Out) -> Option<Tridiagonal<T>> {
+    let cid = geti(case, "cid"); let tj = &case["tri"];
+    let ints = ["sub", "main", "sup", "subi", "maini", "supi"].iter().all(|f| tj.get(*f).map(|v| v.as_array().unwrap().iter().all(|x| x.is_i64())).unwrap_or(true));
+    match guarded(|| tri_from::<T>(tj, gets(case, "ctor"))) {
+        Ok(m) => { if ints { for w in 0..(if T::CX { 2 } else { 1 }) {
+                       let want = if w == 0 { re_tri(tj) } else { im_tri(tj) };
+                       out.ev(json!({"op": "built", "ctor": gets(case, "ctor"), "ty": T::NAME, "cid": cid, "k": -1, "panic": false, "post": jtri(&m, if w == 0 { Part::Re } else { Part::Im }),
+                                     "sub": want["sub"], "main": want["main"], "sup": want["sup"]})); } }
+                   Some(m) }
+        Err(msg) => { out.ev(json!({"op": "built", "ctor": gets(case, "ctor"), "ty": T::NAME, "cid": cid, "k": -1, "panic": true, "msg": msg})); None }
+    }
+}
+/// dense twin of the case's matrix (from the case JSON, never through the object under test)
+fn dense_case(tj: &Value) -> Vec<Vec<(f64, f64)>> {
+    let n = getu(tj, "n"); let g = |k: &str, i: usize| -> (f64, f64) { let ki = format!("{}i", k); (f64_from(&tj[k][i]), tj.get(&ki).map(|v| f64_from(&v[i])).unwrap_or(0.0)) };
+    (0..n).map(|i| (0..n).map(|j| if i == j { g("main", i) } else if i == j + 1 { g("sub", j) } else if i + 1 == j { g("sup", i) } else { (0.0, 0.0) }).collect()).collect()
+}
+
 // ------------------------------------------------------------------ histories
 enum Res<T> { None, T(Tridiagonal<T>), V(Vector<T>), S(T), N(usize), Diags(Vector<T>, Vector<T>, Vector<T>), M(ohsl::Matrix<T>) }
 
@@ -87,7 +106,7 @@ fn step<T: BE>(m: &mut Tridiagonal<T>, op: &Value) -> Result<Res<T>, String> {
 
 fn run_hist_from<T: BE>(case: &Value, out: &mut Out, k0: usize) {
     let cid = geti(case, "cid");
-    let mut m = tri_from::<T>(&case["tri"], gets(case, "ctor"));
+    let mut m = match if k0 == 0 { construct::<T>(case, out) } else { guarded(|| tri_from::<T>(&case["tri"], gets(case, "ctor"))).ok() } { Some(m) => m, None => return };
     for (k, op) in case["ops"].as_array().unwrap().iter().enumerate() {
         let k = k + k0;
         let name = gets(op, "op");
@@ -160,8 +179,8 @@ fn mentions_zero(msg: &str) -> bool { msg.to_lowercase().contains("zero") }
 
 fn run_sol<T: BE>(case: &Value, out: &mut Out) {
     let cid = geti(case, "cid");
-    let m = tri_from::<T>(&case["tri"], gets(case, "ctor"));
-    let n = m.size();
+    let m = match construct::<T>(case, out) { Some(m) => m, None => return };
+    let n = getu(&case["tri"], "n");
     let r = vec_of::<T>(&case["r"], if T::CX { case.get("ri") } else { None });
     let mode = if T::NAME == "rat" { "exact" } else { match gets(case, "mode") { "" => "outcome", s => s } };
     let mut k = 0usize;
@@ -185,7 +204,7 @@ fn run_sol<T: BE>(case: &Value, out: &mut Out) {
         }
         emit(out, &mut k, e);
     } else {
-        let dense: Vec<Vec<(f64, f64)>> = { let d = m.convert(); (0..n).map(|i| (0..n).map(|j| d[(i, j)].to_c()).collect()).collect() };
+        let dense: Vec<Vec<(f64, f64)>> = dense_case(&case["tri"]);
         let rc: Vec<(f64, f64)> = r.vec.iter().map(|x| x.to_c()).collect();
         let su = match &sol { Ok(x) => backward_units(&dense, &x.vec.iter().map(|v| v.to_c()).collect::<Vec<_>>(), &rc), Err(_) => SAT };
         emit(out, &mut k, json!({"op": "solve_units", "n": n, "cxf": T::CX, "panic": panic, "units": su}));
